@@ -652,7 +652,10 @@ def _update_contract(vc, target_state):
 
 @scenario("remove", functions=[V + ".remove", FOCUS + "._sig_view_remove", FOCUS + ".index", FOCUS + ".flow", SETTINGS + "._sig_store_remove", V + "._rev", V + ".__getitem__"])
 def s_remove(vc):
-    st = mk_state(vc, ["hidden", "visible", "absent"])
+    # the removed flow may have changed since it was last announced (body arrived, no update() yet): its verdict, mark and sort keys
+    # are unrelated to its presence in the view and to its cached keys -- the view was sorted with the CACHED key, and the flow
+    # must be located and removed with it
+    st = mk_state(vc, ["hidden", "visible", "absent"], loose=(0,))
     t = st.flows[0]
     before = st.view_items()
     stored_before = st.store_ids()
@@ -668,9 +671,13 @@ def s_remove(vc):
     kinds = [e[0] for e in st.log if e[0] != "focus_change"]
     want = (["remove"] if st.states[0] == "visible" else []) + (["store_remove"] if st.states[0] != "absent" else [])
     vc.ensure("remove.Sig.kinds", kinds == want)
-    if st.states[0] == "visible":
-        ev = [e for e in st.log if e[0] == "remove"][0]
-        vc.ensure("remove.Sig.index_is_old_position", ev[1][1] == [i for i, f in enumerate(before) if f is t][0])
+    evs = [e for e in st.log if e[0] == "remove"]
+    vc.ensure("remove.Sig.exactly_one_view_remove_iff_it_was_shown", len(evs) == (1 if st.states[0] == "visible" else 0))
+    if st.states[0] == "visible" and len(evs) == 1:
+        vc.ensure("remove.Sig.names_the_removed_flow", evs[0][1][0] is t)
+        vc.ensure("remove.Sig.index_is_old_position", evs[0][1][1] == [i for i, f in enumerate(before) if f is t][0])
+        vc.ensure("remove.Sig.sent_after_the_view_changed", not _in(t, evs[0][2]))
+    vc.ensure("remove.view_is_the_old_view_without_the_flow", len(st.view_items()) == len([f for f in before if f is not t]))
     vc.ensure("remove.frame.others_keep_their_place", all(a is c for a, c in zip(st.view_items(), [f for f in before if f is not t])))
 
 
@@ -872,7 +879,8 @@ def _t2_filters():
 def _t2_ops(nflows):
     ops = []
     for i in range(nflows):
-        ops += [("add", i), ("update", i), ("remove", i), ("mutate", i, "size"), ("mutate", i, "hide"), ("mutate", i, "mark"), ("mutate", i, "method")]
+        ops += [("add", i), ("update", i), ("remove", i), ("mutate", i, "size"), ("mutate", i, "hide"), ("mutate", i, "mark"), ("mutate", i, "method"),
+                ("mutate_only", i, "size"), ("mutate_only", i, "method")]   # mutate_only: the flow changes but no hook/update() has run yet
     ops += [("set_filter", 0), ("set_filter", 1), ("set_filter", 2), ("set_order", "time"), ("set_order", "size"), ("set_order", "method"), ("set_order", "url"),
             ("set_reversed", True), ("set_reversed", False), ("toggle_marked",), ("clear",), ("clear_not_marked",), ("focus_follow", True), ("focus_next",), ("go", -1)]
     return ops
@@ -915,6 +923,7 @@ def _t2_run(b, seq, ops):
     v.sig_view_update.connect(recv[2])
     v.sig_view_refresh.connect(recv[3])
     m = dict(filter=None, marked_only=False, order="time", rev=False)
+    dirty = set()   # flows mutated since their last update(): their position follows the key they were announced with
     name = lambda f: type(f).__name__ if f is not None else None
     for step, oi in enumerate(seq):
         op = ops[oi]
@@ -936,6 +945,9 @@ def _t2_run(b, seq, ops):
                 if m["marked_only"] and not flows[op[1]].marked:
                     cls = "KF-C43-1"
                 v.update([flows[op[1]]])
+            elif op[0] == "mutate_only":
+                _mutate(flows[op[1]], op[2])
+                dirty.add(op[1])
             elif op[0] == "remove":
                 v.remove([flows[op[1]]])
             elif op[0] == "set_filter":
@@ -983,8 +995,14 @@ def _t2_run(b, seq, ops):
         if set(map(id, actual)) != set(map(id, expected)):
             b.fail(chk("view.exactly_matching_flows"), inp, f"expected {sorted(name(f) for f in expected)}, view has {[name(f) for f in actual]}")
             bad = True
+        if op[0] in ("update", "mutate", "remove"):
+            dirty.discard(op[1])
+        if op[0] == "clear":
+            dirty.clear()
         keys = [key(f) for f in actual]
-        if any(keys[i] > keys[i + 1] for i in range(len(keys) - 1)):
+        if any(flows[i] in actual for i in dirty):
+            pass    # an unannounced change: sortedness by the *current* key is not required until update() is called
+        elif any(keys[i] > keys[i + 1] for i in range(len(keys) - 1)):
             b.fail(chk("view.sorted_by_selected_order", "KF-C43-2" if stale else ""), inp, f"keys in view order: {keys}")
             bad = bad or not stale
         shown = [v[i] for i in range(len(v))]
@@ -1052,12 +1070,18 @@ def bounded(tier, seed):
                 for kind in ("size", "method"):
                     seqs.append(P + (ix[("set_order", A)], ix[("set_order", B)], ix[("mutate", i, kind)], ix[("set_order", A)]))
                     seqs.append(P + (ix[("set_order", A)], ix[("set_filter", 1)], ix[("mutate", i, "hide")], ix[("mutate", i, kind)], ix[("mutate", i, "hide")]))
+    # a flow whose key changed is removed before any update(): it must be found via the key it was inserted with
+    for A in orders:
+        for i in range(3):
+            for kind in ("size", "method"):
+                seqs.append(P + (ix[("set_order", A)], ix[("mutate_only", i, kind)], ix[("remove", i)]))
+                seqs.append(P + (ix[("set_order", A)], ix[("mutate_only", i, kind)], ix[("remove", i)], ix[("update", (i + 1) % 3)]))
     extra = 1500 if tier == "quick" else 40000
     for _ in range(extra):
         n = rnd.choice([3, 4, 5] if tier == "quick" else [4, 5, 5, 6])
         seqs.append(rnd.choice(prefixes) + tuple(rnd.randrange(len(ops)) for _ in range(n)))
     b.bound = (f"6 prefixes x all continuations of length <= {depth} over {len(ops)} operations (quick: length 2 only after the empty and the add-all prefix) "
-               f"+ 192 directed order/visibility shapes + {extra} random continuations of length 3..6; 3 flows")
+               f"+ 192 directed order/visibility shapes + 48 mutate-without-update-then-remove shapes + {extra} random continuations of length 3..6; 3 flows")
     for seq in seqs:
         b.case(seq, nontrivial=any(ops[i][0] == "add" for i in seq))
         _t2_run(b, seq, ops)
